@@ -11,7 +11,7 @@ From Coq Require Import List NArith.
 From NV Require Import Base.LE Bgzf.Crc32 Bgzf.Crc32Proofs Bgzf.Frame Bgzf.FrameProofs
   Bgzf.Writer Bgzf.Reader Bgzf.ReaderProofs Bgzf.WriterProofs
   Bgzf.Inflate Bgzf.InflateProofs Bgzf.InflateFuel Bgzf.InflateHuffman Bgzf.InflateFixed Bgzf.InflateTokens Bgzf.InflateBody Bgzf.InflateDynamic Bgzf.Level0Proofs
-  Bgzf.InflateSpec Bgzf.InflateStream Bgzf.InflateSound Bgzf.InflateReader Bgzf.InflateEnc.
+  Bgzf.InflateSpec Bgzf.InflateStream Bgzf.InflateSound Bgzf.InflateReader Bgzf.InflateEnc Bgzf.ReaderCalls Bgzf.ReaderCallsProofs.
 Import ListNotations.
 Open Scope N_scope.
 
@@ -621,3 +621,16 @@ Proof.
   split; [vm_compute; reflexivity|]. split; [exact H|].
   exact (proj1 (inflate_sound _ _ _ (pack_bits_bytes _ _) H)).
 Qed.
+
+(* The direct path of Read::read (a >= 65536-byte buffer offered when the block is exhausted is
+   inflated into directly: read_block_into_buf / parse_block_into_buf) is unobservable.  For EVERY
+   source byte string (damaged frames, empty members, truncation included) and EVERY sequence of
+   buffer lengths, the reader as written (fp = true) returns call by call the same bytes / error
+   kinds and ends in the same state (inner stream, position, block position / size, data len / pos,
+   readable window) as the reader without that branch (fill_buf + copy + consume), also across
+   errors (block_invalidate).  Concrete inflater, no premise. *)
+Theorem c01_reader_direct_path_unobservable : forall src ns,
+  run_reads inflate true (rinit src) ns = run_reads inflate false (rinit src) ns.
+Proof. exact (reader_direct_path_unobservable inflate inflate_exact_length). Qed.
+Print Assumptions c01_reader_direct_path_unobservable.
+
